@@ -13,12 +13,12 @@ import (
 	"github.com/jackalLabs/canine-chain/v4/x/filetree"
 	fttypes "github.com/jackalLabs/canine-chain/v4/x/filetree/types"
 	"github.com/jackalLabs/canine-chain/v4/x/jklmint"
+	mtypes "github.com/jackalLabs/canine-chain/v4/x/jklmint/types"
 	"github.com/jackalLabs/canine-chain/v4/x/notifications"
 	ntypes "github.com/jackalLabs/canine-chain/v4/x/notifications/types"
 	"github.com/jackalLabs/canine-chain/v4/x/oracle"
 	otypes "github.com/jackalLabs/canine-chain/v4/x/oracle/types"
 	"github.com/jackalLabs/canine-chain/v4/x/rns"
-	mtypes "github.com/jackalLabs/canine-chain/v4/x/jklmint/types"
 	rtypes "github.com/jackalLabs/canine-chain/v4/x/rns/types"
 	"github.com/jackalLabs/canine-chain/v4/x/storage"
 	stypes "github.com/jackalLabs/canine-chain/v4/x/storage/types"
@@ -39,8 +39,8 @@ func init() { families["gen"] = func() Family { return &genFam{} } }
 func (f *genFam) Reseed(r *rand.Rand) { f.rng = r }
 
 func (f *genFam) Setup(cfg M, rng *rand.Rand) { f.rng = rng }
-func (f *genFam) Reset() M                     { f.c = nil; return M{} }
-func (f *genFam) Project() M                   { return M{} }
+func (f *genFam) Reset() M                    { f.c = nil; return M{} }
+func (f *genFam) Project() M                  { return M{} }
 func (f *genFam) Random(rng *rand.Rand) M {
 	if f.c != nil {
 		return nil
@@ -257,33 +257,74 @@ func (f *genFam) Apply(st M) M {
 	ctx := c1.Ctx
 	cdc := c1.App.AppCodec()
 	ap := c1.App
-	// export + validate
-	sg := storage.ExportGenesis(ctx, ap.StorageKeeper)
-	rg := rns.ExportGenesis(ctx, ap.RnsKeeper)
-	fg := filetree.ExportGenesis(ctx, ap.FileTreeKeeper)
-	og := oracle.ExportGenesis(ctx, ap.OracleKeeper)
-	ng := notifications.ExportGenesis(ctx, ap.NotificationsKeeper)
-	mg := jklmint.ExportGenesis(ctx, ap.MintKeeper)
-	valid := M{"storage": sg.Validate() == nil, "rns": rg.Validate() == nil, "filetree": fg.Validate() == nil,
-		"oracle": og.Validate() == nil, "notification": ng.Validate() == nil, "jklmint": mg.Validate() == nil}
-	exp1 := map[string][]byte{"storage": cdc.MustMarshalJSON(sg), "rns": cdc.MustMarshalJSON(rg), "filetree": cdc.MustMarshalJSON(fg),
-		"oracle": cdc.MustMarshalJSON(og), "notification": cdc.MustMarshalJSON(ng), "jklmint": cdc.MustMarshalJSON(mg)}
+	// export + validate; a module whose export, validation or import panics is reported as not valid / not re-exportable
+	// (never as a harness failure: a genesis that cannot be written or read back is exactly what C19 excludes)
+	type gen interface {
+		Validate() error
+	}
+	exportAll := func(ctx sdk.Context, ap *app.JackalApp) (map[string][]byte, M) {
+		exp, valid := map[string][]byte{}, M{}
+		one := func(name string, f func() (gen, []byte)) {
+			valid[name] = false
+			defer func() { recover() }()
+			g, bz := f()
+			exp[name] = bz
+			valid[name] = g.Validate() == nil
+		}
+		one("storage", func() (gen, []byte) {
+			g := storage.ExportGenesis(ctx, ap.StorageKeeper)
+			return g, cdc.MustMarshalJSON(g)
+		})
+		one("rns", func() (gen, []byte) { g := rns.ExportGenesis(ctx, ap.RnsKeeper); return g, cdc.MustMarshalJSON(g) })
+		one("filetree", func() (gen, []byte) {
+			g := filetree.ExportGenesis(ctx, ap.FileTreeKeeper)
+			return g, cdc.MustMarshalJSON(g)
+		})
+		one("oracle", func() (gen, []byte) {
+			g := oracle.ExportGenesis(ctx, ap.OracleKeeper)
+			return g, cdc.MustMarshalJSON(g)
+		})
+		one("notification", func() (gen, []byte) {
+			g := notifications.ExportGenesis(ctx, ap.NotificationsKeeper)
+			return g, cdc.MustMarshalJSON(g)
+		})
+		one("jklmint", func() (gen, []byte) { g := jklmint.ExportGenesis(ctx, ap.MintKeeper); return g, cdc.MustMarshalJSON(g) })
+		return exp, valid
+	}
+	exp1, valid := exportAll(ctx, ap)
 	gsName := map[string]string{"storage": "storage", "rns": "rns", "filetree": "filetree", "oracle": "oracle", "notification": "notification", "jklmint": "jklmint"}
 	// fresh chain booted from the exported genesis of the custom modules
-	c2 := chain.NewClosed(func(gs app.GenesisState, a *app.JackalApp) {
-		for st, bz := range exp1 {
-			gs[gsName[st]] = bz
+	var c2 *chain.Chain
+	func() {
+		defer func() {
+			if p := recover(); p != nil {
+				c2 = nil
+			}
+		}()
+		c2 = chain.NewClosed(func(gs app.GenesisState, a *app.JackalApp) {
+			for st, bz := range exp1 {
+				if bz != nil {
+					gs[gsName[st]] = bz
+				}
+			}
+		})
+	}()
+	if c2 == nil { // the exported genesis cannot be imported at all: nothing is preserved
+		none := M{}
+		for m := range valid {
+			valid[m] = false
+			none[m] = false
 		}
-	})
+		c1.Close()
+		return M{"a": "roundtrip", "kinds": []interface{}{}, "valid": valid, "reexport": none, "params": none, "ok": true,
+			"x": M{"seed": geti(st, "seed"), "import": "InitChain of a fresh application with the exported genesis panicked"}}
+	}
 	ctx2 := c2.Ctx
 	ap2 := c2.App
-	exp2 := map[string][]byte{
-		"storage": cdc.MustMarshalJSON(storage.ExportGenesis(ctx2, ap2.StorageKeeper)), "rns": cdc.MustMarshalJSON(rns.ExportGenesis(ctx2, ap2.RnsKeeper)),
-		"filetree": cdc.MustMarshalJSON(filetree.ExportGenesis(ctx2, ap2.FileTreeKeeper)), "oracle": cdc.MustMarshalJSON(oracle.ExportGenesis(ctx2, ap2.OracleKeeper)),
-		"notification": cdc.MustMarshalJSON(notifications.ExportGenesis(ctx2, ap2.NotificationsKeeper)), "jklmint": cdc.MustMarshalJSON(jklmint.ExportGenesis(ctx2, ap2.MintKeeper))}
+	exp2, _ := exportAll(ctx2, ap2)
 	reexp := M{}
-	for st := range exp1 {
-		reexp[st] = bytes.Equal(exp1[st], exp2[st])
+	for st := range valid {
+		reexp[st] = exp1[st] != nil && exp2[st] != nil && bytes.Equal(exp1[st], exp2[st])
 	}
 	// raw store comparison per record kind
 	stats := map[string]*kindStat{}
@@ -321,10 +362,18 @@ func (f *genFam) Apply(st M) M {
 		}
 	}
 	// module parameters live in the params store: compare through the keepers
-	parEq := M{
-		"storage": ap.StorageKeeper.GetParams(ctx) == ap2.StorageKeeper.GetParams(ctx2), "rns": ap.RnsKeeper.GetParams(ctx) == ap2.RnsKeeper.GetParams(ctx2),
-		"filetree": ap.FileTreeKeeper.GetParams(ctx) == ap2.FileTreeKeeper.GetParams(ctx2), "oracle": ap.OracleKeeper.GetParams(ctx) == ap2.OracleKeeper.GetParams(ctx2),
-		"notification": ap.NotificationsKeeper.GetParams(ctx) == ap2.NotificationsKeeper.GetParams(ctx2), "jklmint": ap.MintKeeper.GetParams(ctx) == ap2.MintKeeper.GetParams(ctx2)}
+	parEq := M{}
+	cmpPar := func(name string, f func() bool) {
+		parEq[name] = false
+		defer func() { recover() }() // reading parameters that were never stored panics in the params subspace
+		parEq[name] = f()
+	}
+	cmpPar("storage", func() bool { return ap.StorageKeeper.GetParams(ctx) == ap2.StorageKeeper.GetParams(ctx2) })
+	cmpPar("rns", func() bool { return ap.RnsKeeper.GetParams(ctx) == ap2.RnsKeeper.GetParams(ctx2) })
+	cmpPar("filetree", func() bool { return ap.FileTreeKeeper.GetParams(ctx) == ap2.FileTreeKeeper.GetParams(ctx2) })
+	cmpPar("oracle", func() bool { return ap.OracleKeeper.GetParams(ctx) == ap2.OracleKeeper.GetParams(ctx2) })
+	cmpPar("notification", func() bool { return ap.NotificationsKeeper.GetParams(ctx) == ap2.NotificationsKeeper.GetParams(ctx2) })
+	cmpPar("jklmint", func() bool { return ap.MintKeeper.GetParams(ctx) == ap2.MintKeeper.GetParams(ctx2) })
 	kinds := []interface{}{}
 	names := []string{}
 	for k := range stats {
